@@ -7,7 +7,11 @@ import (
 	"golang.org/x/tools/go/ssa"
 )
 
-func init() { register("C10", checkC10) }
+func init() {
+	register("C10", checkC10)
+	// Expression.Variables / RenameVariablePrefix of the writer rest on the native variables walker
+	registerExtra("C10", c07ScopePushPop)
+}
 
 // Named exceptions (one construct each, with the reason).
 var linearExceptions = map[string]string{
